@@ -587,6 +587,7 @@ impl ObjValue {
 
 	fn get_idx(&self, key: IStr, core: CoreIdx) -> Result<Option<Val>> {
 		let cache_key = (key.clone(), core);
+		let mut _reentry_guard = None;
 		{
 			let mut cache = self.0.value_cache.borrow_mut();
 			// entry_ref candidate?
@@ -597,6 +598,10 @@ impl ObjValue {
 						if !is_asserting(self) {
 							bail!(InfiniteRecursionDetected);
 						}
+						// Assertions are allowed to read the field which is being computed right now,
+						// but the recomputation should still be bounded, otherwise a field depending
+						// on itself recurses forever while the object assertions are running.
+						_reentry_guard = Some(crate::stack::check_depth()?);
 					}
 				},
 				Entry::Vacant(v) => {
